@@ -59,12 +59,12 @@ class TableGrader(ItemGrader):
 
     def check_response(self, answer, student_input, **kwargs):
         TableGrader.calls += 1
-        key = (answer['expect'], student_input.strip())
+        key = (answer['expect'].strip(), student_input.strip())
         credit = self.config['table'].get(key, 0)
         grade = credit * answer['grade_decimal']
         msg = ''
         if self.config['ids'] and (grade > 0 or self.config['msg_on_zero']):
-            msg = '%s/A=%s/I=%s' % (self.config['tag'], answer['expect'], student_input.strip())
+            msg = '%s/A=%s/I=%s' % (self.config['tag'], answer['expect'].strip(), student_input.strip())
         if answer['msg'] and grade > 0:
             msg = (msg + '|' if msg else '') + answer['msg']
         return {'ok': self.grade_decimal_to_ok(grade), 'grade_decimal': grade, 'msg': msg}
